@@ -13,118 +13,166 @@ open Conv Conv.Xml
 
 /-! ## All values, in order -/
 
-/-- **Values in order (partial: `plainProp`).**  For every Property whose value texts are
-    plain, the single `value` element the converter writes is read back by the strict reader
-    (`from_csv`) as exactly the non-blank value texts of the 1.0 Property, stripped, in order -
-    for any number of value elements. -/
-theorem fold_values_partial (sn st : List Char) (p : Xml)
-    (hplain : plainProp p = true) (hne : vals10 p ≠ []) :
-    readValues (transformProp sn st p).1.kids = some (vals10 p) := by
-  simp only [plainProp, Bool.and_eq_true, List.all_eq_true, Bool.or_eq_true, decide_eq_true_eq] at hplain
-  obtain ⟨⟨hgood, hpl⟩, hbr⟩ := hplain
-  have hg : ∀ t ∈ (valuesOf p).map Xml.text, t = [] ∨ Py.strip t ≠ [] := by
-    intro t ht
-    simp only [List.mem_map] at ht
-    obtain ⟨v, hv, rfl⟩ := ht
-    have := hgood v hv
-    simpa using this
-  have hloop := valueLoop_text ⟨sn, st, pyStr (findText "name" p.kids)⟩ (valuesOf p)
-    { cur := p.kids, main := [], multi := false, log := [] }
-  simp only [] at hloop
-  rw [foldAll_empty _ _ hg, ← vals10_eq_stripped] at hloop
-  cases hvs : vals10 p with
-  | nil => exact absurd hvs hne
-  | cons v vs =>
-    rw [hvs] at hloop hbr hpl
-    simp only [Prod.mk.injEq, Bool.false_or] at hloop
-    obtain ⟨hmain, hmulti⟩ := hloop
-    have hvmem : v ∈ stripped ((valuesOf p).map Xml.text) := by
-      rw [← vals10_eq_stripped, hvs]; simp
-    obtain ⟨t, hvt, hvne⟩ := mem_stripped hvmem
-    have hmne : v ++ tailOf vs ≠ [] := by simp [hvne]
-    have hvsp : v.all Py.isSpace = false := by
-      rw [hvt]; exact strip_not_all_space t (hvt ▸ hvne)
-    have hstrip : Py.strip (mainText (v ++ tailOf vs) (!vs.isEmpty)) ≠ [] := by
-      unfold mainText
-      split
-      · have := strip_ne_nil_of_part ['['] v (tailOf vs ++ [']']) hvsp
-        simpa using this
-      · have := strip_ne_nil_of_part [] v (tailOf vs) hvsp
-        simpa using this
-    have hcsv : fromCsv (mainText (v ++ tailOf vs) (!vs.isEmpty)) = some (v :: vs) := by
-      apply fromCsv_mainText
-      · exact hpl v (by simp)
-      · exact hvne
-      · intro w hw; exact hpl w (by simp [hw])
-      · intro w hw
-        have : w ∈ stripped ((valuesOf p).map Xml.text) := by
-          rw [← vals10_eq_stripped, hvs]; simp [hw]
-        obtain ⟨_, _, h3⟩ := mem_stripped this
-        exact h3
-      · intro hnil; subst hnil; simpa using hbr
-    have hk : (transformProp sn st p).1.kids =
-        (propCleanup ⟨sn, st, pyStr (findText "name" p.kids)⟩
-          (if (valueLoop ⟨sn, st, pyStr (findText "name" p.kids)⟩ (valuesOf p)
-                { cur := p.kids, main := [], multi := false, log := [] }).main ≠ [] then
-             (valueLoop ⟨sn, st, pyStr (findText "name" p.kids)⟩ (valuesOf p)
-                { cur := p.kids, main := [], multi := false, log := [] }).cur ++
-              [leaf "value" (mainText
-                (valueLoop ⟨sn, st, pyStr (findText "name" p.kids)⟩ (valuesOf p)
-                  { cur := p.kids, main := [], multi := false, log := [] }).main
-                (valueLoop ⟨sn, st, pyStr (findText "name" p.kids)⟩ (valuesOf p)
-                  { cur := p.kids, main := [], multi := false, log := [] }).multi)]
-           else (valueLoop ⟨sn, st, pyStr (findText "name" p.kids)⟩ (valuesOf p)
-                { cur := p.kids, main := [], multi := false, log := [] }).cur)).1 := rfl
-    rw [hk]
-    generalize valueLoop ⟨sn, st, pyStr (findText "name" p.kids)⟩ (valuesOf p)
-      { cur := p.kids, main := [], multi := false, log := [] } = S at hmain hmulti ⊢
-    rw [hmain, hmulti, if_pos hmne, propCleanup_append, propCleanup_value]
-    unfold readValues
-    rw [findLast_concat _ _ _ (by simp [leaf, Xml.tag])]
-    simp only [leaf, Xml.text]
-    simp [hstrip, hcsv]
+/-- **Values in order** (Properties that have a value).  For every Property - any number of
+    value elements, any texts, any other children - the single `value` element the converter writes is read back by the strict
+    reader (`from_csv`) as exactly the non-blank value texts of the 1.0 Property, stripped, in
+    order.  (Before fix 9cd3c9f this held only for `plainProp` Properties: values without `,`
+    `"` line breaks, blank texts and a bracketed single value; the texts were joined with bare
+    commas.  Now they are written with `to_csv`, which `from_csv` inverts: the csv round trip
+    of C01.) -/
+theorem fold_values_nonempty (sn st : List Char) (p : Xml) (hne : vals10 p ≠ []) :
+    readValues (transformProp false sn st p).1.kids = some (vals10 p) := by
+  have hvals := valueLoop_vals ⟨sn, st, pyStr (findText "name" p.kids)⟩ (valuesOf p)
+    { cur := p.kids, vals := [], log := [] }
+  simp only [List.nil_append] at hvals
+  have hmap : ((List.map Xml.text (valuesOf p)).filter (fun t => decide (Py.strip t ≠ []))).map Py.strip
+      = vals10 p := by rw [map_strip_filter, vals10_eq_stripped]
+  have hws : (List.map Xml.text (valuesOf p)).filter (fun t => decide (Py.strip t ≠ [])) ≠ [] := by
+    intro h; rw [h] at hmap; exact hne hmap.symm
+  have hall : ∀ w ∈ (List.map Xml.text (valuesOf p)).filter (fun t => decide (Py.strip t ≠ [])),
+      Py.strip w ≠ [] := by
+    intro w hw
+    simpa using (List.mem_filter.1 hw).2
+  have hk : (transformProp false sn st p).1.kids =
+      (propCleanup ⟨sn, st, pyStr (findText "name" p.kids)⟩
+        (if (valueLoop ⟨sn, st, pyStr (findText "name" p.kids)⟩ (valuesOf p)
+              { cur := p.kids, vals := [], log := [] }).vals ≠ [] then
+           (valueLoop ⟨sn, st, pyStr (findText "name" p.kids)⟩ (valuesOf p)
+              { cur := p.kids, vals := [], log := [] }).cur ++
+            [leaf "value" (mainText false
+              (valueLoop ⟨sn, st, pyStr (findText "name" p.kids)⟩ (valuesOf p)
+                { cur := p.kids, vals := [], log := [] }).vals)]
+         else (valueLoop ⟨sn, st, pyStr (findText "name" p.kids)⟩ (valuesOf p)
+              { cur := p.kids, vals := [], log := [] }).cur)).1 := rfl
+  rw [hk]
+  generalize valueLoop ⟨sn, st, pyStr (findText "name" p.kids)⟩ (valuesOf p)
+    { cur := p.kids, vals := [], log := [] } = S at hvals ⊢
+  generalize (List.map Xml.text (valuesOf p)).filter (fun t => decide (Py.strip t ≠ [])) = W
+    at hmap hws hall hvals
+  rw [hvals, if_pos hws, propCleanup_append, propCleanup_value]
+  unfold readValues
+  rw [findLast_concat _ _ _ (by simp [leaf, Xml.tag])]
+  have hstrip := strip_mainText_ne_nil _ hws hall
+  simp only [leaf, Xml.text]
+  simp [hstrip, fromCsv_mainText, hmap]
 
-/-- The full statement does not hold: the text written for the values is not always read back
-    as the values. -/
+/-- A Property without a value (no value element, or blank texts only) gets no `value` child:
+    every 1.0 value element is removed, none is written. -/
+theorem fold_values_none (sn st : List Char) (p : Xml) (h : vals10 p = []) :
+    find "value" (transformProp false sn st p).1.kids = none := by
+  have hvals := valueLoop_vals ⟨sn, st, pyStr (findText "name" p.kids)⟩ (valuesOf p)
+    { cur := p.kids, vals := [], log := [] }
+  simp only [List.nil_append] at hvals
+  have hmap : ((List.map Xml.text (valuesOf p)).filter (fun t => decide (Py.strip t ≠ []))).map Py.strip
+      = vals10 p := by rw [map_strip_filter, vals10_eq_stripped]
+  rw [h, List.map_eq_nil_iff] at hmap
+  rw [hmap] at hvals
+  have hno := valueLoop_no_value ⟨sn, st, pyStr (findText "name" p.kids)⟩ p [] []
+  simp only [transformProp, kids_elem, valuesOf] at hvals hno ⊢
+  rw [hvals]
+  simp only [ne_eq, not_true_eq_false, ↓reduceIte]
+  rw [propCleanup_find _ "value" value_in_propKeys (by decide), hno]
+
+/-- **Values in order, every Property** (the statement at full strength, refuted before the
+    repair by `fold_values_not_full`): whatever the value elements of a 1.0 Property contain,
+    the strict reader gets exactly its non-blank value texts, stripped, in order, from the
+    converted Property. -/
 def fold_values_statement : Prop :=
-  ∀ (sn st : List Char) (p : Xml), vals10 p ≠ [] →
-    readValues (transformProp sn st p).1.kids = some (vals10 p)
+  ∀ (sn st : List Char) (p : Xml),
+    readValues (transformProp false sn st p).1.kids = some (vals10 p)
+
+theorem fold_values (sn st : List Char) (p : Xml) :
+    readValues (transformProp false sn st p).1.kids = some (vals10 p) := by
+  by_cases h : vals10 p = []
+  · have := findLast_none_of_find _ _ (fold_values_none sn st p h)
+    simp [readValues, this, h]
+  · exact fold_values_nonempty sn st p h
+
+theorem fold_values_full : fold_values_statement := fold_values
 
 /-- 1.0 values `a,b` and `c`. -/
 def witnessCommas : Xml :=
   .elem "property" [] [] [leaf "name" "p".toList, leaf "value" "a,b".toList, leaf "value" "c".toList]
 
-theorem fold_values_counterexample :
-    readValues (transformProp [] [] witnessCommas).1.kids = some ["a".toList, "b".toList, "c".toList] ∧
-    vals10 witnessCommas = ["a,b".toList, "c".toList] := by decide
-
-theorem fold_values_not_full : ¬ fold_values_statement := by
-  intro h
-  have := h [] [] witnessCommas (by decide)
-  revert this
+/-- The former counterexamples, now read back as they are: a comma inside a value, a leading
+    quote, a blank value element (no value), a bracketed single value, a line break. -/
+theorem fold_values_witness_commas :
+    findText "value" (transformProp false [] [] witnessCommas).1.kids = "[\"a,b\",c]".toList ∧
+    readValues (transformProp false [] [] witnessCommas).1.kids = some ["a,b".toList, "c".toList] := by
   decide
+theorem fold_values_witness_quote :
+    readValues (transformProp false [] [] (.elem "property" [] [] [leaf "name" "p".toList,
+      leaf "value" "x".toList, leaf "value" "\"q\"".toList])).1.kids
+      = some ["x".toList, "\"q\"".toList] := by decide
+theorem fold_values_witness_blank :
+    readValues (transformProp false [] [] (.elem "property" [] [] [leaf "name" "p".toList,
+      leaf "value" "a".toList, leaf "value" " ".toList])).1.kids = some ["a".toList] := by decide
+theorem fold_values_witness_bracket :
+    readValues (transformProp false [] [] (.elem "property" [] [] [leaf "name" "p".toList,
+      leaf "value" "[x]".toList])).1.kids = some ["[x]".toList] := by decide
+theorem fold_values_witness_newline :
+    readValues (transformProp false [] [] (.elem "property" [] [] [leaf "name" "p".toList,
+      leaf "value" "a\nb".toList, leaf "value" "c".toList])).1.kids
+      = some ["a\nb".toList, "c".toList] := by decide
 
-/-- Further witnesses outside `plainProp`: a leading quote, a blank value, a bracketed single. -/
-theorem fold_values_counterexample_quote :
-    readValues (transformProp [] [] (.elem "property" [] [] [leaf "name" "p".toList,
-      leaf "value" "x".toList, leaf "value" "\"q\"".toList])).1.kids = some ["x".toList, "q".toList] := by
-  decide
-theorem fold_values_counterexample_blank :
-    readValues (transformProp [] [] (.elem "property" [] [] [leaf "name" "p".toList,
-      leaf "value" "a".toList, leaf "value" " ".toList])).1.kids = some ["a".toList, []] := by decide
-theorem fold_values_counterexample_bracket :
-    readValues (transformProp [] [] (.elem "property" [] [] [leaf "name" "p".toList,
-      leaf "value" "[x]".toList])).1.kids = some ["x".toList] := by decide
+/-- **A source that already has the current format version** (`encoded_values`, what
+    `FormatConverter` feeds the converter as well; pinned by C17): the single value element of a
+    1.1 Property holds the encoded list and is kept as it is, stripped - the converter does not
+    change the values of a 1.1 document. -/
+theorem fold_values_encoded_single (sn st : List Char) (p v : Xml) (hv : valuesOf p = [v])
+    (hne : Py.strip v.text ≠ []) :
+    findLast "value" (transformProp true sn st p).1.kids = some (leaf "value" (Py.strip v.text)) := by
+  have hvals := valueLoop_vals ⟨sn, st, pyStr (findText "name" p.kids)⟩ (valuesOf p)
+    { cur := p.kids, vals := [], log := [] }
+  simp only [List.nil_append, hv, List.map_cons, List.map_nil, List.filter_cons, hne, ne_eq,
+    not_false_eq_true, decide_true, ↓reduceIte, List.filter_nil] at hvals
+  have hk : (transformProp true sn st p).1.kids =
+      (propCleanup ⟨sn, st, pyStr (findText "name" p.kids)⟩
+        (if (valueLoop ⟨sn, st, pyStr (findText "name" p.kids)⟩ (valuesOf p)
+              { cur := p.kids, vals := [], log := [] }).vals ≠ [] then
+           (valueLoop ⟨sn, st, pyStr (findText "name" p.kids)⟩ (valuesOf p)
+              { cur := p.kids, vals := [], log := [] }).cur ++
+            [leaf "value" (mainText true
+              (valueLoop ⟨sn, st, pyStr (findText "name" p.kids)⟩ (valuesOf p)
+                { cur := p.kids, vals := [], log := [] }).vals)]
+         else (valueLoop ⟨sn, st, pyStr (findText "name" p.kids)⟩ (valuesOf p)
+              { cur := p.kids, vals := [], log := [] }).cur)).1 := rfl
+  rw [hk, hv]
+  generalize valueLoop ⟨sn, st, pyStr (findText "name" p.kids)⟩ [v]
+    { cur := p.kids, vals := [], log := [] } = S at hvals ⊢
+  rw [hvals, if_pos (by simp), propCleanup_append, propCleanup_value]
+  rw [findLast_concat _ _ _ (by simp [leaf, Xml.tag])]
+  simp [mainText]
 
-/-- The hypotheses of `fold_values_partial` are satisfiable by a Property with several values,
-    attributes on the values and white space around the texts. -/
-example : plainProp (.elem "property" [] [] [leaf "name" "p".toList,
+/-- `<value>[a,b]</value>` of a 1.1 Property stays the list of `a` and `b`; in a 1.0 document the
+    same text is the one value `[a,b]`. -/
+theorem fold_values_witness_encoded :
+    readValues (transformProp true [] [] (.elem "property" [] [] [leaf "name" "p".toList,
+      leaf "value" "[a,b]".toList])).1.kids = some ["a".toList, "b".toList] ∧
+    readValues (transformProp false [] [] (.elem "property" [] [] [leaf "name" "p".toList,
+      leaf "value" "[a,b]".toList])).1.kids = some ["[a,b]".toList] ∧
+    encodedValues (.elem "odML" [("version", "1.1".toList)] [] []) = true ∧
+    encodedValues (.elem "odML" [("version", "1".toList)] [] []) = false ∧
+    encodedValues (.elem "odML" [] [] []) = false := by decide
+
+/-- The text before the repair (`foldTextLegacy`: the stripped texts joined with bare commas,
+    brackets for more than one) was not read back as the values: the defect fix 9cd3c9f repairs. -/
+def joinLegacy : List (List Char) → List Char
+  | [] => []
+  | [v] => Py.strip v
+  | v :: vs => '[' :: (Py.strip v ++ vs.flatMap (fun w => ',' :: Py.strip w)) ++ [']']
+
+theorem fold_values_legacy_counterexample :
+    fromCsv (joinLegacy ["a,b".toList, "c".toList]) = some ["a".toList, "b".toList, "c".toList] ∧
+    fromCsv (joinLegacy ["[x]".toList]) = some ["x".toList] ∧
+    fromCsv (joinLegacy ["a\nb".toList, "c".toList]) = some ["a".toList] := by decide
+
+/-- Plain values are written as before: the repair does not change the text of a document
+    that was converted correctly. -/
+example : findText "value" (transformProp false [] [] (.elem "property" [] [] [leaf "name" "p".toList,
     .elem "value" [] " a b\n ".toList [leaf "unit" "mV".toList], leaf "value" [],
-    leaf "value" "[c".toList, leaf "value" "12".toList]) = true ∧
-    vals10 (.elem "property" [] [] [leaf "name" "p".toList,
-    .elem "value" [] " a b\n ".toList [leaf "unit" "mV".toList], leaf "value" [],
-    leaf "value" "[c".toList, leaf "value" "12".toList]) = ["a b".toList, "[c".toList, "12".toList] := by
-  decide
+    leaf "value" "[c".toList, leaf "value" "12".toList])).1.kids = "[a b,[c,12]".toList ∧
+    joinLegacy [" a b\n ".toList, "[c".toList, "12".toList] = "[a b,[c,12]".toList := by decide
 
 /-! ## Lifting of the value attributes -/
 
@@ -132,16 +180,16 @@ example : plainProp (.elem "property" [] [] [leaf "name" "p".toList,
     the respelled dependency value): the element with tag `t` of the converted Property is the
     Property's own one, else the first value attribute - over all value elements in document
     order - that `_handle_value` exports under `t`; later ones never replace it. -/
-theorem lift_first_wins (sn st : List Char) (t : String) (ht : t ∈ propKeys)
+theorem lift_first_wins (enc : Bool) (sn st : List Char) (t : String) (ht : t ∈ propKeys)
     (ht1 : t ≠ "dependencyvalue") (ht2 : t ≠ "value") (p : Xml) :
-    find t (transformProp sn st p).1.kids =
+    find t (transformProp enc sn st p).1.kids =
       match find t p.kids with
       | some k => some k
       | none => firstLift t ((valuesOf p).flatMap valueElems) := by
   simp only [transformProp, kids_elem, valuesOf]
   rw [propCleanup_find _ t ht ht1]
   have hloop := valueLoop_find ⟨sn, st, pyStr (findText "name" p.kids)⟩ t ht2 (valuesOf p)
-    { cur := p.kids, main := [], multi := false, log := [] }
+    { cur := p.kids, vals := [], log := [] }
   simp only [valuesOf] at hloop
   split
   · rw [find_append_single, hloop]
@@ -197,57 +245,73 @@ example :
       .elem "value" [] "2".toList [leaf "unit" "mV".toList, leaf "type" "int".toList,
         leaf "filename" "f.txt".toList],
       .elem "value" [] "3".toList [leaf "unit" "V".toList]]
-    (findText "type" (transformProp [] [] p).1.kids = "text".toList) ∧
-    (findText "unit" (transformProp [] [] p).1.kids = "mV".toList) ∧
-    (findText "value_origin" (transformProp [] [] p).1.kids = "f.txt".toList) ∧
+    (findText "type" (transformProp false [] [] p).1.kids = "text".toList) ∧
+    (findText "unit" (transformProp false [] [] p).1.kids = "mV".toList) ∧
+    (findText "value_origin" (transformProp false [] [] p).1.kids = "f.txt".toList) ∧
     attr10 "unit" p = "mV".toList ∧ attr10 "type" p = "text".toList := by decide
 
 /-! ## Sibling names -/
 
-/-- Stage 1 renames the Section children of every node exactly as the specification says:
-    the k-th sibling with a name already used gets `-k`. -/
-theorem rename_sections_spec (b : Bool) (pm : Counter) (ks : List Xml)
-    (hn : ∀ k ∈ ks, k.tag = "section" → (find "name" k.kids).isSome = true) :
-    secNames (p1Kids b [] pm ks) = names10 [] (secNames ks) := by
-  rw [secNames_p1Kids b [] pm ks hn, bumpAll_eq_names10 [] [] _ rep_nil]
+/-- Stage 1 renames the named Section children of every node exactly as the specification
+    says: the first sibling with a name keeps it, the k-th gets `-k` or the next higher number
+    that gives a name no other sibling has. -/
+theorem rename_sections_spec (b : Bool) (pm : Counter) (pd : List (List Char)) (ks : List Xml) :
+    secNames (p1Kids b [] pm [] pd ks) = names10 [] [] (secNames ks) := by
+  rw [secNames_p1Kids b [] pm [] pd ks, bumpAll_eq_names10 [] [] [] _ rep_nil]
 
 /-- The same for the named Property children of a Section. -/
-theorem rename_properties_spec (sm : Counter) (ks : List Xml) :
-    propNames (p1Kids true sm [] ks) = names10 [] (propNames ks) := by
-  rw [propNames_p1Kids, bumpAll_eq_names10 [] [] _ rep_nil]
+theorem rename_properties_spec (sm : Counter) (sd : List (List Char)) (ks : List Xml) :
+    propNames (p1Kids true sm [] sd [] ks) = names10 [] [] (propNames ks) := by
+  rw [propNames_p1Kids, bumpAll_eq_names10 [] [] [] _ rep_nil]
 
-/-- **Sibling names unique (partial: `noSuffixClash`).**  After suffixing, the names of the
-    Section children of a node are pairwise different - for any number of siblings and
-    clashes - provided no sibling is literally called `n-k`. -/
-theorem rename_unique_partial (b : Bool) (pm : Counter) (ks : List Xml)
-    (hn : ∀ k ∈ ks, k.tag = "section" → (find "name" k.kids).isSome = true)
-    (hc : noSuffixClash (secNames ks) = true) :
-    (secNames (p1Kids b [] pm ks)).Nodup := by
-  rw [rename_sections_spec b pm ks hn]
-  exact names10_nodup (secNames ks) (secNames ks).length (noSuffixClash_H _ hc) _ []
-    (by simp) (fun x hx => hx) (by intro a; simpa using List.count_le_length)
+/-- **Sibling names unique.**  After suffixing, the names of the Section children of a node
+    are pairwise different - for any number of siblings, any names (also ones that look like
+    suffixed names, `p-2`) and any number of clashes.  (Before fix a03a000 this needed the
+    hypothesis `noSuffixClash`: no sibling literally called `n-k`.) -/
+theorem rename_unique (b : Bool) (pm : Counter) (pd : List (List Char)) (ks : List Xml) :
+    (secNames (p1Kids b [] pm [] pd ks)).Nodup := by
+  rw [rename_sections_spec b pm pd ks]
+  simpa using names10_nodup (secNames ks) [] [] List.nodup_nil (by simp)
 
-theorem rename_unique_properties_partial (sm : Counter) (ks : List Xml)
-    (hc : noSuffixClash (propNames ks) = true) :
-    (propNames (p1Kids true sm [] ks)).Nodup := by
+theorem rename_unique_properties (sm : Counter) (sd : List (List Char)) (ks : List Xml) :
+    (propNames (p1Kids true sm [] sd [] ks)).Nodup := by
   rw [rename_properties_spec]
-  exact names10_nodup (propNames ks) (propNames ks).length (noSuffixClash_H _ hc) _ []
-    (by simp) (fun x hx => hx) (by intro a; simpa using List.count_le_length)
+  simpa using names10_nodup (propNames ks) [] [] List.nodup_nil (by simp)
+
+/-- The first sibling with a name keeps it; a later one gets that name with a numeric suffix;
+    where the number of the occurrence gives a free name it is the one taken (the names before
+    the repair, `name10Legacy`). -/
+theorem rename_keeps_first (used prev : List (List Char)) (n : List Char) (h : prev.count n = 0) :
+    name10 used prev n = n := by simp [name10, h]
+
+theorem rename_numeric_suffix (used prev : List (List Char)) (n : List Char) (h : prev.count n ≠ 0) :
+    ∃ k, prev.count n + 1 ≤ k ∧ name10 used prev n = suffix n k ∧ suffix n k ∉ used := by
+  refine ⟨nextFree n used used.length (prev.count n + 1), nextFree_ge _ _ _ _, by simp [name10, h], ?_⟩
+  exact nextFree_free n used _
+
+theorem rename_default_when_free (used prev : List (List Char)) (n : List Char)
+    (h : suffix n (prev.count n + 1) ∉ used) : name10 used prev n = name10Legacy prev n :=
+  name10_default used prev n h
 
 /-- Siblings `p`, `p`, `p-2`. -/
 def witnessClash : List Xml :=
   [.elem "property" [] [] [leaf "name" "p".toList], .elem "property" [] [] [leaf "name" "p".toList],
    .elem "property" [] [] [leaf "name" "p-2".toList]]
 
-/-- Full strength fails: the second `p` becomes `p-2`, which a sibling already is called. -/
-theorem rename_unique_counterexample :
-    propNames (p1Kids true [] [] witnessClash) = ["p".toList, "p-2".toList, "p-2".toList] ∧
-    ¬ (propNames (p1Kids true [] [] witnessClash)).Nodup ∧
-    noSuffixClash (propNames witnessClash) = false := by decide
+/-- The former counterexample: the second `p` becomes `p-3`, because `p-2` is a sibling. -/
+theorem rename_unique_witness :
+    propNames (p1Kids true [] [] [] [] witnessClash) = ["p".toList, "p-3".toList, "p-2".toList] ∧
+    (propNames (p1Kids true [] [] [] [] witnessClash)).Nodup := by decide
 
-example : noSuffixClash ["p".toList, "p".toList, "q".toList, "p".toList, "q-x".toList] = true ∧
-    names10 [] ["p".toList, "p".toList, "q".toList, "p".toList] =
-      ["p".toList, "p-2".toList, "q".toList, "p-3".toList] := by decide
+/-- Before the repair the second `p` became `p-2`, which a sibling already is called. -/
+theorem rename_legacy_counterexample :
+    names10Legacy [] (propNames witnessClash) = ["p".toList, "p-2".toList, "p-2".toList] ∧
+    ¬ (names10Legacy [] (propNames witnessClash)).Nodup := by decide
+
+example : names10 [] [] ["p".toList, "p".toList, "q".toList, "p".toList] =
+      ["p".toList, "p-2".toList, "q".toList, "p-3".toList] ∧
+    names10 [] [] ["p".toList, "p".toList, "p-2".toList, "p".toList, "p-3".toList] =
+      ["p".toList, "p-4".toList, "p-2".toList, "p-5".toList, "p-3".toList] := by decide
 
 /-! ## Ids -/
 
@@ -301,8 +365,8 @@ theorem propCleanup_vocab (pid : PropId) (ks : List Xml) :
 
 /-- Every child of a converted Property is an argument of the 1.1 Property class
     (`format.Property._args`, regenerated from the code on every run). -/
-theorem property_vocab (sn st : List Char) (p : Xml) :
-    ∀ k ∈ (transformProp sn st p).1.kids, k.tag ∈ propKeys := by
+theorem property_vocab (enc : Bool) (sn st : List Char) (p : Xml) :
+    ∀ k ∈ (transformProp enc sn st p).1.kids, k.tag ∈ propKeys := by
   intro k hk
   simp only [transformProp, kids_elem] at hk
   exact propCleanup_vocab _ _ k hk
@@ -400,9 +464,9 @@ theorem docCleanup_keeps (ks : List Xml) :
   | cons k ks ih => simp only [docCleanup, List.filter_cons]; split <;> simp_all
 
 /-- An unnamed Property is dropped and the drop is recorded. -/
-theorem unnamed_property_logged (sn st : List Char) (ks : List Xml) (k : Xml) (hk : k ∈ ks)
+theorem unnamed_property_logged (enc : Bool) (sn st : List Char) (ks : List Xml) (k : Xml) (hk : k ∈ ks)
     (hp : k.tag = "property") (hn : find "name" k.kids = none) :
-    LogE.unnamedProp ∈ (p3Kids sn st ks).2 := by
+    LogE.unnamedProp ∈ (p3Kids enc sn st ks).2 := by
   induction ks with
   | nil => cases hk
   | cons k' ks ih =>
@@ -444,8 +508,8 @@ theorem convert_root (fresh : List Char) (x : Xml) :
   have h2 : ∀ y : Xml, (p2 y).tag = y.tag ∧
       (p2 y).attrs = setAttr "version" Gen.Format.formatVersion.toList y.attrs := by
     intro y; cases y; simp [p2]
-  have h3 : ∀ y : Xml, (p3 y).1.tag = y.tag ∧ (p3 y).1.attrs = y.attrs := by
-    intro y; cases y; simp [p3]
+  have h3 : ∀ (e : Bool) (y : Xml), (p3 e y).1.tag = y.tag ∧ (p3 e y).1.attrs = y.attrs := by
+    intro e y; cases y; simp [p3]
   have h4 : ∀ y : Xml, (p4 y).1.tag = y.tag ∧ (p4 y).1.attrs = y.attrs := by
     intro y; cases y; simp only [p4]; split <;> simp
   have h5 : ∀ y : Xml, (p5 y).1.tag = y.tag ∧ (p5 y).1.attrs = y.attrs := by
@@ -453,7 +517,7 @@ theorem convert_root (fresh : List Char) (x : Xml) :
   have h6 : ∀ y : Xml, (p6 fresh 0 y).tag = y.tag ∧ (p6 fresh 0 y).attrs = y.attrs := by
     intro y; cases y; simp only [p6, addId]; split <;> simp
   simp only [convertTree, stage5, stage4, stage3]
-  rw [(h6 _).1, (h6 _).2, (h5 _).1, (h5 _).2, (h4 _).1, (h4 _).2, (h3 _).1, (h3 _).2,
+  rw [(h6 _).1, (h6 _).2, (h5 _).1, (h5 _).2, (h4 _).1, (h4 _).2, (h3 _ _).1, (h3 _ _).2,
     (h2 _).1, (h2 _).2, (h1 _).1, (h1 _).2]
   exact ⟨rfl, rfl⟩
 
